@@ -2,7 +2,7 @@
 import json, os, re, subprocess, shutil, time
 
 JAR = "/opt/veriftools/tla/tla2tools.jar:/opt/veriftools/tla/CommunityModules-deps.jar"
-SPECS = "/verif/specs"
+SPECS = os.path.join(os.path.dirname(os.path.dirname(os.path.abspath(__file__))), "specs")
 
 
 class ToolError(Exception):
